@@ -521,7 +521,7 @@ class World:
             col.distinct("comparator_outcomes", o)
 
     # ---------------------------------------------------- (c) rank selection
-    def selection_case(self, col, label, bias, n, judge_measure=True):
+    def selection_case(self, col, label, bias, n, judge_measure=True, sample=False):
         sel = self.selection.RankSelection(bias)
         population = [None] * n
         data = {"leg": "selection", "bias_label": label, "n": n}
@@ -562,6 +562,8 @@ class World:
         for rcls, r in SPECIAL_DRAWS:
             probe(r, rcls, None)
         self.sel_outcomes.add((label, n, tuple(counts)))
+        if sample:
+            col.sample({"leg": "selection", "bias": label, "n": n, "grid_histogram": counts})
         if not judge_measure or any(i is None for i in seq):
             return
         # grid measure: a better rank is never drawn less often than a worse one (slack 1 = quantisation)
@@ -659,8 +661,7 @@ def plan(tier, seed):
                 est = len(firsts) * t ** (n - 1)
             else:
                 est = sum(math.comb(sum(1 for u in universe if u >= t0) + n - 2, n - 1) for t0 in firsts)
-            every = 997 + 2 * (seed % 50)
-            jobs.append((est * (1 + g) * (n - 1 or 1), ("ranking", g, n, mode, firsts, every)))
+            jobs.append((est * (1 + g) * (n - 1 or 1), ("ranking", g, n, mode, firsts, 0)))
     jobs.sort(key=lambda j: (-j[0], repr(j[1])))
     out = [j[1] for j in jobs]
     out += [("selection", label, bias) for label, bias in BIASES]
@@ -675,6 +676,19 @@ def run(ctx):
 
     jobs = plan(ctx.tier, ctx.seed)
     par.run_shards(TARGET, jobs, ctx.workers, ctx)
+    # samples for the evidence file: a few cases re-run in this process (the seed only picks which)
+    w = world()
+    picks = [(2, ((0, 2), 1), ((2, 0), 1), ((1, 1), 2), ((2, 2), 1)),
+             (2, ((0, 1), 1), ((0, 1), 1), ((1, 0), 2), ((1, 1), 1)),
+             (3, ((0, 1, 2), 1), ((0, 1, 2), 2), ((2, 1, 0), 1)),
+             (1, ((1,), 2), ((1,), 1), ((0,), 2), ((2,), 1))]
+    for k in range(2):
+        g, *members = picks[(ctx.seed + k) % len(picks)]
+        pop = tuple(w.types[g].index(m) for m in members)
+        w.ranking_case(ctx, g, pop, (POPCFGS[(ctx.seed + k) % 3],), None, sample_every=3)
+    w.flush(ctx)
+    label, bias = BIASES[3 + ctx.seed % 6]
+    w.selection_case(ctx, label, bias, 5, sample=True)
     c = ctx.col.counters
     cells = grid(ctx.tier)
     expect = sum(grid_size(g, n, mode) for g, n, mode in cells)
